@@ -405,6 +405,25 @@ fn check_value(f: &Fields) -> CheckResult {
       if w != j.as_bytes() {
         return Err(format!("to_writer wrote {:?}, to_json gave {j:?}", String::from_utf8_lossy(&w)));
       }
+      // a writer that takes at most a few bytes per call (as pipes and sockets may): still every byte
+      struct Short(Vec<u8>, usize);
+      impl std::io::Write for Short {
+        fn write(&mut self, buf: &[u8]) -> std::io::Result<usize> {
+          let n = buf.len().min(self.1);
+          self.0.extend_from_slice(&buf[..n]);
+          Ok(n)
+        }
+        fn flush(&mut self) -> std::io::Result<()> {
+          Ok(())
+        }
+      }
+      for cap in [1usize, 7, 4096] {
+        let mut sw = Short(vec![], cap);
+        m.clone().to_writer(&mut sw).map_err(|e| format!("to_writer into a writer taking {cap} byte(s) per call failed: {e}"))?;
+        if sw.0 != j.as_bytes() {
+          return Err(format!("to_writer into a writer that takes at most {cap} byte(s) per call delivered {} of {} bytes: {:?}", sw.0.len(), j.len(), String::from_utf8_lossy(&sw.0[..sw.0.len().min(200)])));
+        }
+      }
       let v: serde_json::Value = serde_json::from_str(&j).map_err(|e| format!("an independent JSON parser rejects to_json() output {j:?}: {e}"))?;
       let obj = v.as_object().ok_or("to_json() is not an object")?;
       if obj.get("version") != Some(&serde_json::json!(3)) {
